@@ -9,6 +9,8 @@ import (
 	"github.com/go-kid/ioc/util/el"
 	"github.com/go-kid/strconv2"
 	"github.com/pkg/errors"
+	"math"
+	"strconv"
 )
 
 type expressionTagAwarePostProcessors struct {
@@ -47,6 +49,10 @@ func (c *expressionTagAwarePostProcessors) PostProcessProperties(properties []*c
 			result, err := expr.Run(program, nil)
 			if err != nil {
 				return "", errors.Wrapf(err, "execute expression '%s' program error", exp)
+			}
+			if f, ok := result.(float64); ok && f == math.Trunc(f) && math.Abs(f) < 1<<63 {
+				//a whole number keeps its digits: the default text form of a float switches to an exponent from 1e+06 on, which an integer field cannot read back
+				return strconv.FormatFloat(f, 'f', -1, 64), nil
 			}
 			val, err := strconv2.FormatAny(result)
 			if err != nil {
